@@ -18,6 +18,7 @@ var d = gen.D{}
 type namedScen struct {
 	name string
 	scen *gen.Scenario
+	hist *history // nil = the flows are read, then inspected
 }
 
 func sp(s string) *string { return &s }
@@ -82,7 +83,7 @@ func act(name, typ string, kv M) M { return d.Action(name, typ, kv) }
 
 func directed() []namedScen {
 	var out []namedScen
-	add := func(name string, s *gen.Scenario) { out = append(out, namedScen{name, s}) }
+	add := func(name string, s *gen.Scenario) { out = append(out, namedScen{name: name, scen: s}) }
 	msgThenTimeout := []M{d.MsgResume(0, "hello")}
 	timeoutOnly := []M{d.Timeout(0)}
 	alt := func(i int) []M {
@@ -288,7 +289,90 @@ func directed() []namedScen {
 		add("send_msg-localized-eng", &gen.Scenario{Assets: as, Trigger: d.Manual("A", nil), Resumes: timeoutOnly})
 	}
 	out = append(out, plantedDirected()...)
+	out = append(out, historyDirected(out)...)
 	return out
+}
+
+// historyDirected: scenarios in which the inspected flow OBJECT has a history (history.go).
+//   - late-translation: scenarios of the corpus above whose translations name assets the base language does not, run
+//     with a contact of the translated language, with the translations added to the already inspected object (in place
+//     / through a PO file);
+//   - change-language: flows whose routers save results and whose category names are translated, with the translation
+//     made the base language by Flow.ChangeLanguage; every category is reached.
+func historyDirected(corpus []namedScen) []namedScen {
+	var out []namedScen
+	find := func(name string) *gen.Scenario {
+		for _, x := range corpus {
+			if x.name == name {
+				return x.scen
+			}
+		}
+		panic("no directed scenario " + name)
+	}
+	for _, x := range []struct{ base, via, pre string }{
+		{"send_msg-localized-spa", "set", "inspect"},
+		{"send_msg-localized-spa", "po", "inspect"},
+		{"router-result-wait-timeout-spa", "po", "inspect+extract"},
+		{"planted-send_msg-spa", "set", "inspect+extract"},
+		{"planted-router-switch-spa", "set", "inspect"},
+	} {
+		out = append(out, namedScen{name: "history-late-translation-" + x.via + "/" + x.base, scen: deepCopyScen(find(x.base)), hist: &history{mode: "late-translation", via: x.via, pre: x.pre}})
+	}
+
+	// a question asked again and again: every category of the router (incl. the timeout's) is reached, each has a
+	// Spanish name, and the Spanish arguments differ from the English ones
+	{
+		yes, no, other, tmo := d.Cat("Yes", "hq1yes"), d.Cat("Never", "hq1no"), d.Cat("Other", "hq1other"), d.Cat("No Response", "hq1tmo")
+		router := d.Switch("@input.text", []M{yes, no, other, tmo}, other, []M{
+			{"type": "has_any_word", "arguments": []string{"yes yeah"}, "category_uuid": yes["uuid"]},
+			{"type": "has_any_word", "arguments": []string{"no never"}, "category_uuid": no["uuid"]},
+		}, M{"type": "msg", "timeout": M{"seconds": 60, "category_uuid": tmo["uuid"]}}, "Likes Fruit")
+		ask := d.SendMsg("hq1m", "Do you like fruit, @contact.name?")
+		fl := d.Flow("A", "messaging", d.Node("hq1", []any{ask}, router, d.Exit("hq1yes", "hq1"), d.Exit("hq1no", "hq1"), d.Exit("hq1other", "hq1"), d.Exit("hq1tmo", "")))
+		cases := router["cases"].([]any)
+		fl["localization"] = M{"spa": M{
+			ask["uuid"].(string):          M{"text": []string{"¿Te gusta la fruta de @globals.org_name, @fields.nick?"}},
+			yes["uuid"].(string):          M{"name": []string{"Claro"}},
+			no["uuid"].(string):           M{"name": []string{"Nunca"}},
+			other["uuid"].(string):        M{"name": []string{"Otro"}},
+			tmo["uuid"].(string):          M{"name": []string{"Sin Respuesta"}},
+			cases[0].(M)["uuid"].(string): M{"arguments": []string{"claro vale"}},
+			cases[1].(M)["uuid"].(string): M{"arguments": []string{"no nunca"}},
+		}}
+		resumes := []M{d.MsgResume(0, "vale"), d.MsgResume(1, "nunca mas"), d.MsgResume(2, "quizas"), d.Timeout(3)}
+		for _, lang := range []string{"eng", "spa"} {
+			out = append(out, namedScen{name: "history-change-language/router-categories-contact-" + lang,
+				scen: &gen.Scenario{Assets: c20Assets(deepCopy(fl).(M)), Trigger: d.Manual("A", contact(M{"language": lang})), Resumes: resumes}, hist: &history{mode: "change-language", lang: "spa"}})
+		}
+		// the same flow, translated late (the Spanish contact evaluates the imported question and arguments)
+		out = append(out, namedScen{name: "history-late-translation-po/router-categories",
+			scen: &gen.Scenario{Assets: c20Assets(deepCopy(fl).(M)), Trigger: d.Manual("A", contact(M{"language": "spa"})), Resumes: resumes}, hist: &history{mode: "late-translation", via: "po", pre: "inspect"}})
+	}
+	// a random router and a no-wait switch with translated category names
+	{
+		a, b := d.Cat("Bucket A", "hrndA"), d.Cat("Bucket B", "hrndB")
+		adult, minor := d.Cat("Adult", "hageA"), d.Cat("Minor", "hageM")
+		sw := d.Switch("@fields.age", []M{adult, minor}, minor, []M{{"type": "has_number_gte", "arguments": []string{"18"}, "category_uuid": adult["uuid"]}}, nil, "Age Group")
+		nodes := append([]M{
+			d.Node("h1", nil, M{"type": "random", "categories": []any{a, b}, "result_name": "Bucket"}, d.Exit("hrndA", "h2"), d.Exit("hrndB", "h2")),
+			d.Node("h2", nil, sw, d.Exit("hageA", "w1"), d.Exit("hageM", "w1"))}, tail()...)
+		fl := d.Flow("A", "messaging", nodes...)
+		fl["localization"] = M{"spa": M{
+			a["uuid"].(string): M{"name": []string{"Cubo A"}}, b["uuid"].(string): M{"name": []string{"Cubo B"}},
+			adult["uuid"].(string): M{"name": []string{"Adulto"}}, minor["uuid"].(string): M{"name": []string{"Menor"}},
+		}}
+		out = append(out, namedScen{name: "history-change-language/random-and-switch-categories",
+			scen: &gen.Scenario{Assets: c20Assets(fl), Trigger: d.Manual("A", nil), Resumes: []M{d.Timeout(0)}}, hist: &history{mode: "change-language", lang: "spa"}})
+	}
+	return out
+}
+
+func deepCopyScen(s *gen.Scenario) *gen.Scenario {
+	cp := *s
+	cp.Assets = deepCopy(s.Assets).(M)
+	cp.Trigger = deepCopy(s.Trigger).(M)
+	cp.Resumes = deepCopy(s.Resumes).([]M)
+	return &cp
 }
 
 // plantedDirected: one scenario per action type (and one for routers / waits) in which EVERY free string property
@@ -364,7 +448,7 @@ func plantedDirected() []namedScen {
 	plantAll := func(name string, s *gen.Scenario) {
 		pl := newPlanter(fw.NewRand(7, "C20/directed-plant:"+name, 0), s, 1, true, true)
 		pl.plantScenario()
-		out = append(out, namedScen{name, s})
+		out = append(out, namedScen{name: name, scen: s})
 	}
 	seenType := map[string]int{}
 	for _, sp := range specs {
@@ -457,12 +541,12 @@ func directedNames() []string {
 	return out
 }
 
-func findDirected(name string) *gen.Scenario {
+func findDirected(name string) (*gen.Scenario, *history) {
 	// rebuilt every time: a scenario is mutable JSON and must not leak between cases
 	for _, x := range directed() {
 		if x.name == name {
-			return x.scen
+			return x.scen, x.hist
 		}
 	}
-	return nil
+	return nil, nil
 }
